@@ -248,7 +248,14 @@ func (w *c12World) judge(op *c12Op) {
 			}
 			s.Probe("err.rsperror")
 		}
-		if received && last.Honest && last.Status == 200 && !conv && !crossed {
+		if op.trunc != "" {
+			if received && last.Honest && last.Status == 200 && !conv {
+				s.Probe("trunc.correct.refused") // allowed: the client cannot derive the entry from what it submitted
+			} else if received && !last.Honest {
+				s.Probe("trunc.mutated.refused")
+			}
+		}
+		if received && last.Honest && last.Status == 200 && !conv && !crossed && !(op.trunc != "" && op.Kind == "add-pre-chain") {
 			s.Violate("harness", "c12.correct-answer-refused|"+meth, "%s: %s refused the reference log's correct answer: %v (body %s)", op.Party, meth, op.Err, last.Body)
 		}
 		return
@@ -313,6 +320,9 @@ func (w *c12World) judge(op *c12Op) {
 			return
 		}
 		s.Probe("verified.sct")
+		if op.trunc != "" {
+			s.Probe("trunc.accepted-and-verified." + op.trunc)
+		}
 	case "get-sth-consistency":
 		var j jConsistency
 		if err := decodeFirst(body, &j); err != nil {
